@@ -479,7 +479,7 @@ func execute(scn *chainsim.Scenario, oracle string, cov *hx.Coverage) outcome {
 					cov.Count("op:reorg-depth>=2")
 				}
 			}
-			n := 2
+			n := 3
 			if len(s.Blocks) > 80 {
 				n = 1
 			}
@@ -496,7 +496,7 @@ func execute(scn *chainsim.Scenario, oracle string, cov *hx.Coverage) outcome {
 			cov.Count("op:add-side-block")
 		}
 	}
-	if err := check(30); err != nil {
+	if err := check(60); err != nil {
 		return outcome{err: err, diffAt: -1}
 	}
 	out := outcome{fails: fails, diffAt: -1, requests: len(lines)}
@@ -612,7 +612,7 @@ func main() {
 		}
 	}
 	r := hx.NewRand(ctx.Seed)
-	nBushy, nLong := ctx.Scale(120, 1500), ctx.Scale(8, 80)
+	nBushy, nLong := ctx.Scale(750, 6000), ctx.Scale(50, 400)
 	for i := 0; i < nBushy; i++ {
 		runOne(ctx, chainsim.GenBushy(r.Fork(uint64(i)), chainsim.GenOpts{Logs: true}))
 	}
